@@ -155,10 +155,46 @@ func evalC16(c *Ctx, cs EnumCase) EnumResult {
 	if rb.State != rf.State {
 		vs = append(vs, explore.Violation{Sig: "C16:compaction-changes-state", Msg: fmt.Sprintf("history %d: after %d completed compactions the directory recovers [%s]; the same history logged without compaction recovers [%s]", a.Hist, runs, strings.ReplaceAll(rf.State, "\n", " / "), strings.ReplaceAll(rb.State, "\n", " / "))})
 	}
+	// appends continuing while a compaction runs: at EVERY file-system call of every compaction of this history a
+	// burst of further requests arrives and is logged (enough to rotate the append file again) before the call
+	// returns; the final directory must recover like the same request sequence logged without compaction
+	injected := 0
+	if a.Hist == 1 || a.Hist == 5 {
+		np := 0
+		for _, p := range cap.PointAt {
+			if isCompactionPoint(p) {
+				np++
+			}
+		}
+		var burst []SeqOp
+		for i := 0; i < 4; i++ {
+			burst = append(burst, op(1, withEF(L(0, byte(60+i), byte(60+i), 0, 90, 0, 0), efZeroAof)))
+		}
+		burst = append(burst, op(1, U(0, 60, 60)))
+		for j := 0; j < np; j++ {
+			inj := &captureInject{AtPoint: j, Burst: burst}
+			ci := runCaptureInject(cfg, h, false, inj)
+			if ci.Err != "" || inj.OpIndex < 0 {
+				continue // the injection point cannot take further requests (or was not reached)
+			}
+			injected++
+			res.Sub++
+			h2 := append(append(append([]SeqOp{}, h[:inj.OpIndex+1]...), burst...), h[inj.OpIndex+1:]...)
+			ref := runCapture(big, h2, false)
+			ri := recoverImage(cfg, ci.Final, ci.EndT, false)
+			rr := recoverImage(big, ref.Final, ci.EndT, false)
+			distinct[fmt.Sprintf("inj|%d|%s", a.Hist, ri.State)] = true
+			if ri.StartErr != "" || ri.Crash != "" {
+				vs = append(vs, explore.Violation{Sig: "C16:start-failed-after-concurrent-appends", Msg: fmt.Sprintf("history %d, %d requests arriving during compaction file-system call #%d: the next start fails: %s %s", a.Hist, len(burst), j, ri.StartErr, ri.Crash)})
+			} else if ri.State != rr.State {
+				vs = append(vs, explore.Violation{Sig: "C16:appends-during-compaction-lost", Msg: fmt.Sprintf("history %d, %d requests arriving (and logged) while compaction file-system call #%d was being made: the directory recovers [%s]; the same request sequence logged without compaction recovers [%s]", a.Hist, len(burst), j, strings.ReplaceAll(ri.State, "\n", " / "), strings.ReplaceAll(rr.State, "\n", " / "))})
+			}
+		}
+	}
 	res.Viol = dedupe(vs)
 	res.SubNT = len(distinct)
 	res.Nontrivial = true
-	res.Obs = fmt.Sprintf("%d compaction runs, %d crash images recovered, final state [%s]", runs, res.Sub, strings.ReplaceAll(rf.State, "\n", " / "))
+	res.Obs = fmt.Sprintf("%d compaction runs, %d crash images recovered, %d injection points with concurrent appends, final state [%s]", runs, res.Sub, injected, strings.ReplaceAll(rf.State, "\n", " / "))
 	return res
 }
 
